@@ -237,12 +237,24 @@ def once(ctx):
         for e in tre.returns():
             if len(e.stack) != 1:
                 continue
-            checked = any(_is_width_cmp(T.mk_not(g)) for g in guards(e)) or any(T.mentions(g, lambda a: a[0] == "mcall" and a[2] == "equals") for g in guards(e))
             dfa = atom(("call", "isinstance", (P("X"), atom(("global", "pandas.DataFrame"))), ()))
-            br = "DataFrame input" if any(g == dfa for p in e.pc for g in q.conjuncts(p.cond)) or any(
-                T.mentions(l, lambda z: z[0] == "mcall" and z[2] == "copy" and (z[1].single_atom() or ("", "", ""))[0] == "getattr") for _c, l in q.ite_leaves(e.value)) and not checked else "array input"
-            ctx.ob("WR-once", site, "an established width is compared on every accepting path (%s)" % br, checked,
-                   "with a width established by an array, a DataFrame of another width is accepted without comparison", e)
+            # the accepting path by cases (the guards may carry what the earlier refusals left behind as a disjunction)
+            by_branch = {}
+            for case in q.dnf([p.cond for p in e.pc]):
+                if not q.feasible(case):
+                    continue
+                chk = any(_is_width_cmp(T.mk_not(g)) for g in case) or any(T.mentions(g, lambda a: a[0] == "mcall" and a[2] == "equals") for g in case)
+                if dfa in case:
+                    b_ = "DataFrame input"
+                elif T.mk_not(dfa) in case:
+                    b_ = "array input"
+                else:
+                    b_ = "DataFrame input" if not chk and any(
+                        T.mentions(l, lambda z: z[0] == "mcall" and z[2] == "copy" and (z[1].single_atom() or ("", "", ""))[0] == "getattr") for _c, l in q.ite_leaves(e.value)) else "array input"
+                by_branch[b_] = by_branch.get(b_, True) and chk
+            for br, checked in sorted(by_branch.items()):
+                ctx.ob("WR-once", site, "an established width is compared on every accepting path (%s)" % br, checked,
+                       "with a width established by an array, a DataFrame of another width is accepted without comparison", e)
 
 
 # ---------------------------------------------------------------------------
@@ -518,8 +530,9 @@ def validators(ctx):
         rowg = None
         for e in rs:
             gl = [_push_not(g) for g in guards(e)]
-            if len(gl) == 1 and _shape_idx(gl[0]) == 0:
-                rowg = gl[0]
+            rc_ = [g for g in gl if _shape_idx(g) == 0]   # the row-count test itself (the path may also carry what earlier refusals left behind)
+            if len(rc_) == 1 and all(g is rc_[0] or (g.single_atom() or ("",))[0] == "or" for g in gl):
+                rowg = rc_[0]
         want_rowg = _distribute(rows, rows_bad)
         ctx.ob("TAB-validate", site, "refusal: " + ("anything but exactly one row" if base.startswith("Stream") else "one row or fewer"),
                rowg is not None and _same_cases(rowg, want_rowg), q.short(rowg, 200) if rowg is not None else "not found")
